@@ -303,3 +303,23 @@ Proof.
     + eexists. split; [vm_compute; reflexivity | vm_compute; reflexivity].
     + eexists. split; [vm_compute; reflexivity|]. vm_compute. repeat split.
 Qed.
+
+(** Non-vacuity of the timed system: TTL 10, maxStale 100.  An answer stored at time 0 survives a gc at time 5, is
+    served from the cache at time 5, is evicted by the gc at time 11 (past its expiry), and the next caller's lookup
+    is a miss: the request runs again. *)
+Example C14_timed_nonvacuous :
+  let tc := mk_tconfig (mk_config (fun _ => 0) (fun _ => [7]) 1) (fun _ => 10%Z) 100%Z in
+  let call c := [TLock c; TEnq c; TTake 0; TCheck 0] in
+  let fin c := [TReply 0; TUnlock c] in
+  side_cond (t_cf tc) /\
+  (exists ts, trun tc tinit (call 0 ++ [TEnd 0 (ROk 5)] ++ fin 0 ++ [TTick 5; TGc] ++ call 1) = Some ts /\
+              wst (t_s ts) 0 = WReply (1, 7) (ROk 5) /\ List.length (cs_entries (t_c ts)) = 1) /\
+  (exists ts, trun tc tinit (call 0 ++ [TEnd 0 (ROk 5)] ++ fin 0 ++ [TTick 5; TGc] ++ call 1 ++ fin 1 ++ [TTick 6; TGc] ++ call 2) = Some ts /\
+              wst (t_s ts) 0 = WRunning (2, 7) /\ cs_entries (t_c ts) = [] /\ t_now ts = 11%Z).
+Proof.
+  cbn zeta. split.
+  - constructor; cbn.
+    + intros c. constructor; [intros []|constructor].
+    + intros c c' ck N. congruence.
+  - split; eexists; (split; [vm_compute; reflexivity|]); vm_compute; repeat split.
+Qed.
